@@ -155,6 +155,9 @@ static std::string step(const std::string& line) {
     else if (w[1] == "ldeax") e = x->mov(x86::eax, x86::dword_ptr(L, d));
     else if (w[1] == "steax") e = x->mov(x86::dword_ptr(L, d), x86::eax);
     else if (w[1] == "ldrax") e = x->mov(x->zax(), x86::ptr(L, d));
+    else if (w[1] == "fsmov") { x86::Mem m = x86::dword_ptr(L, d); m.set_segment(x86::fs); e = x->mov(x86::ecx, m); }
+    else if (w[1] == "gsldeax") { x86::Mem m = x86::dword_ptr(L, d); m.set_segment(x86::gs); e = x->mov(x86::eax, m); }
+    else if (w[1] == "fsaddi8") { x86::Mem m = x86::dword_ptr(L, d); m.set_segment(x86::fs); e = x->add(m, 0x12); }
     else return "bad-op";
     return answer(e);
   }
@@ -178,6 +181,9 @@ static std::string step(const std::string& line) {
     else if (w[1] == "ldeax") e = x->mov(x86::eax, M(4));
     else if (w[1] == "steax") e = x->mov(M(4), x86::eax);
     else if (w[1] == "ldrax") e = x->mov(x->zax(), M(0));
+    else if (w[1] == "fsmov") { x86::Mem m = M(4); m.set_segment(x86::fs); e = x->mov(x86::ecx, m); }
+    else if (w[1] == "gsldeax") { x86::Mem m = M(4); m.set_segment(x86::gs); e = x->mov(x86::eax, m); }
+    else if (w[1] == "fsaddi8") { x86::Mem m = M(4); m.set_segment(x86::fs); e = x->add(m, 0x12); }
     else return "bad-op";
     return answer(e);
   }
